@@ -56,8 +56,7 @@ def showEv : Ev → String
   | .enqueue i t => s!"enqueue {i} {t}"
   | .poll i => s!"poll {i}"
   | .recv c d => s!"recv {c} {d}"
-  | .scrub i => s!"scrub {i}"
-  | .dropRx c => s!"dropRx {c}"
+  | .finish c b => s!"finish {c} {b}"
   | .dropHandles => "dropHandles"
   | .drvScrub => "drvScrub"
   | .drvOp b => s!"drvOp {b}"
@@ -94,11 +93,7 @@ def pickEv (s : St) (r : Nat) (faults : Bool) : List Ev :=
     -- finish(): scrub unless the Done item was seen, then drop the receiver
     let c := r2 % (s.chans.length + 1)
     match s.chans[c]? with
-    | some ch =>
-      if !ch.rxAlive then [] else
-      match s.ops[ch.opIdx]? with
-      | some o => if o.res != some .ack then [] else (if doneSeen ch then [.dropRx c] else [.scrub o.id, .dropRx c])
-      | none => []
+    | some ch => [.finish c (!doneSeen ch)]
     | none => []
   else if a < 93 then [.tick (r2 % 3)]
   else if faults && a < 95 then [.srvClose]
